@@ -321,6 +321,9 @@ func runC19(c *Ctx) error {
 			if c.Rng.Intn(6) == 0 {
 				fp = 0 // filter disabled
 			}
+			if fp > 0 && len(ikeys)*y.BloomBitsPerKey(len(ikeys), fp) > 12000 {
+				fp = 0.01 // keep the filter literal in the Coq case file small (deep terms overflow coqc's stack)
+			}
 			var t *c19Table
 			var err error
 			p := recoverPanic(func() { t, err = c.buildC19Table(ikeys, fp) })
